@@ -9,7 +9,7 @@ scratch="$(mktemp -d /tmp/mutant.XXXXXX)"
 trap 'rm -rf "$scratch"' EXIT
 rsync -a --exclude .git /repo/ "$scratch/"
 if ! (cd "$scratch" && patch -p1 --quiet < "$patch"); then echo "PATCH-FAILED"; exit 3; fi
-tests=$(cd "$scratch" && /venv/bin/python -B -m pytest -q -p no:cacheprovider --continue-on-collection-errors 2>&1 | tail -1)
+tests=$(cd "$scratch" && timeout 120 /venv/bin/python -B -m pytest -q -p no:cacheprovider --continue-on-collection-errors 2>&1 | tail -1)
 echo "tests: $tests"
 case "$tests" in *"352 passed"*) ;; *) echo "MUTANT-FAILS-TESTS";; esac
 rc=0
